@@ -1226,8 +1226,8 @@ def _thread_empty_results(body: list[ast.stmt]) -> bool:
             continue
         if any(isinstance(y, (ast.FunctionDef, ast.Lambda, ast.ClassDef)) for st in tail for y in ast.walk(st)):
             continue
-        if sum(1 for st in tail for _ in ast.walk(st)) > 800:
-            continue
+        if sum(1 for st in tail for _ in ast.walk(st)) > 150:
+            continue        # only a short epilogue (loop over the result, a mark, a return) is worth duplicating
         other = s1.orelse if xa else s1.body
         # the other branch must define x on every path it leaves normally; simplest: its last statement assigns x
         if not any(isinstance(y, ast.Name) and y.id == x and isinstance(y.ctx, ast.Store) for st in other for y in ast.walk(st)):
@@ -1376,9 +1376,12 @@ def _unfold_comprehension_loops(fn: ast.FunctionDef) -> bool:
     local that is used only as this loop's iterable)."""
     changed = False
     counts: dict[str, int] = {}
+    stores_of: dict[str, int] = {}
     for n in ast.walk(fn):
         if isinstance(n, ast.Name):
             counts[n.id] = counts.get(n.id, 0) + 1
+            if isinstance(n.ctx, (ast.Store, ast.Del)):
+                stores_of[n.id] = stores_of.get(n.id, 0) + 1
 
     def block(body: list[ast.stmt]) -> None:
         nonlocal changed
@@ -1437,6 +1440,60 @@ def _unfold_comprehension_loops(fn: ast.FunctionDef) -> bool:
                             i -= 1
                         changed = True
                         st = new
+            # for x in L: BODY   with  L = [y for y in S if c(y)]  bound once, earlier in this block (L may have other readers):
+            # ->  for x in S: if not c(x): continue; BODY      -- as long as nothing that S or c read is changed in between
+            if isinstance(st, ast.For) and not st.orelse and isinstance(st.target, ast.Name) and isinstance(st.iter, ast.Name) \
+                    and stores_of.get(st.iter.id) == 1:
+                Ln = st.iter.id
+                dpos = next((k_ for k_ in range(i) if isinstance(body[k_], ast.Assign) and len(body[k_].targets) == 1
+                             and isinstance(body[k_].targets[0], ast.Name) and body[k_].targets[0].id == Ln), None)
+                if dpos is not None:
+                    comp = body[dpos].value
+                    if isinstance(comp, ast.ListComp) and len(comp.generators) == 1 and not comp.generators[0].is_async \
+                            and isinstance(comp.generators[0].target, ast.Name) and isinstance(comp.elt, ast.Name) \
+                            and comp.elt.id == comp.generators[0].target.id and comp.generators[0].ifs \
+                            and not any(isinstance(y, (ast.Lambda, ast.NamedExpr, ast.Yield, ast.Await)) for y in ast.walk(comp)):
+                        g = comp.generators[0]
+                        read = {y.id for y in ast.walk(comp) if isinstance(y, ast.Name)} - {g.target.id}
+                        touched = False
+                        for st2 in body[dpos + 1:i + 1]:
+                            for y in ast.walk(st2):
+                                if isinstance(y, ast.Name) and y.id in read and isinstance(y.ctx, (ast.Store, ast.Del)):
+                                    touched = True
+                                if isinstance(y, ast.Call) and isinstance(y.func, ast.Attribute):
+                                    base_ = y.func.value
+                                    while isinstance(base_, (ast.Attribute, ast.Subscript)):
+                                        base_ = base_.value
+                                    a_ = y.func.attr
+                                    if isinstance(base_, ast.Name) and base_.id in read and (
+                                            a_ in ("append", "add", "update", "extend", "pop", "clear", "remove", "discard", "insert", "sort",
+                                                   "reverse", "popitem", "setdefault", "popleft", "appendleft")
+                                            or a_.startswith(("remove", "add_", "set_", "expand", "skip", "_ensure", "_expand", "reclaim",
+                                                              "build", "node_successors", "node_attractor", "node_percolated", "_update"))):
+                                        touched = True     # the object the list was computed from may change while it is walked
+                                if isinstance(y, ast.Subscript) and isinstance(y.ctx, (ast.Store, ast.Del)) and isinstance(y.value, ast.Name) \
+                                        and y.value.id in read:
+                                    touched = True
+                        tv = st.target.id
+                        clash = tv != g.target.id and any(isinstance(y, ast.Name) and y.id == tv for y in ast.walk(comp))
+                        if not touched and not clash:
+                            class RN3(ast.NodeTransformer):
+                                def visit_Name(self, n_):
+                                    return ast.copy_location(ast.Name(tv, n_.ctx), n_) if n_.id == g.target.id else n_
+                            guards = []
+                            for c in g.ifs:
+                                c2 = RN3().visit(copy.deepcopy(c))
+                                t_ = c2.operand if isinstance(c2, ast.UnaryOp) and isinstance(c2.op, ast.Not) else ast.UnaryOp(ast.Not(), c2)
+                                gi = ast.If(t_, [ast.Continue()], [])
+                                guards.append(gi)
+                            new = ast.For(ast.Name(tv, ast.Store()), copy.deepcopy(g.iter), guards + st.body, [])
+                            ast.copy_location(new, st)
+                            for x in ast.walk(new):
+                                if not hasattr(x, "lineno"):
+                                    ast.copy_location(x, st)
+                            body[i] = new
+                            changed = True
+                            continue        # look at the new loop again (its iterable may be such a list too)
             if not isinstance(st, (ast.FunctionDef, ast.ClassDef)):
                 for fld in ("body", "orelse", "finalbody"):
                     b = getattr(st, fld, None)
